@@ -222,7 +222,17 @@ def cone_member(tag, v, weights=None, margin=1e-7, scales=None):
             return True
         return sgn(v[0] - nrm, max(abs(v[0]), nrm))
     if tag == 'e':
-        return cm.in_exp(v, margin)
+        base = cm.in_exp(v, margin)
+        if base is False and scales is not None:
+            # entries formed by cancellation carry rounding errors of about 1e-15 x (size of the terms added up); e^{x/z} amplifies
+            # them when z is tiny.  A rejection must survive every perturbation of that size.
+            import itertools as _it
+            d = [1e-13 * k for k in sc]
+            for sg in _it.product((-1.0, 0.0, 1.0), repeat=3):
+                w = [v[0] + sg[0] * d[0], v[1] + sg[1] * d[1], max(v[2] + sg[2] * d[2], 0.0) if v[2] >= 0 else v[2] + sg[2] * d[2]]
+                if cm.in_exp(w, margin) is not False:
+                    return None
+        return base
     if tag == 'de':
         return cm.in_dexp(v, margin)
     if tag == 'fr':
